@@ -146,7 +146,7 @@ CLAIMS.update({
         "byte and data byte of the 1-, 2- and 3-byte triplet classes (4-byte: thorough), exactly the dx/dy/on-curve the W3C triplet "
         "arithmetic prescribes (this covers all 128 COORD_LUT rows); 2 points: cumulative coordinates, endPts, instructions, explicit vs "
         "computed bounding box; transformed hmtx reconstruction for flags 0-3 with 2-3 glyphs; a one-component composite (thorough: two components with WE_HAVE_INSTRUCTIONS on either).",
-        "Outside: brotli, Woff2Font::read, collections, the eager provider (HashMap), loca reconstruction, composite records, > 2 points, > 1 contour. "
+        "Outside: brotli, Woff2Font::read, collections, the eager provider (HashMap), loca reconstruction, composites of more than one component in the quick tier, > 2 points, > 1 contour. "
         "One open known finding (hmtx tail rebuilt from the wrong glyphs) is listed in known_findings.json.",
         "DESIGN.md section 6, C11", TECH_KANI),
 })
